@@ -341,9 +341,28 @@ int main(int argc, char** argv)
             const auto all    = arange(0, 24);
             struct fitted_t
             {
-                tensor4d_t predictions;
-                indices_t  features;
-                bool       thrown = false;
+                tensor4d_t          predictions;
+                indices_t           features;
+                bool                thrown = false;
+                tensor_size_t       trials = 0;
+                std::vector<double> stats; ///< mean error / loss per (trial, fold, split)
+            };
+            const auto record = [](fitted_t& out, const ml::result_t& result)
+            {
+                out.trials = result.trials();
+                for (tensor_size_t t = 0; t < result.trials(); ++t)
+                {
+                    for (tensor_size_t f = 0; f < result.folds(); ++f)
+                    {
+                        for (const auto split : {ml::split_type::train, ml::split_type::valid})
+                        {
+                            for (const auto value : {ml::value_type::errors, ml::value_type::losses})
+                            {
+                                out.stats.push_back(result.stats(t, f, split, value).m_mean);
+                            }
+                        }
+                    }
+                }
             };
             const auto fit = [&](const size_t dthreads, const int hw) -> fitted_t
             {
@@ -356,7 +375,7 @@ int main(int argc, char** argv)
                     {
                         auto       model  = linear_t::all().get(lin[d[0]]);
                         const auto params = vt::make_fit_params(2, "local-search");
-                        model->fit(dataset, all, *loss, params);
+                        record(out, model->fit(dataset, all, *loss, params));
                         out.predictions = model->predict(dataset, all);
                     }
                     else
@@ -370,7 +389,7 @@ int main(int argc, char** argv)
                             model.parameter("gboost::seed")            = 7;
                         }
                         const auto params = vt::make_fit_params(2, "local-search");
-                        model.fit(dataset, all, *loss, params);
+                        record(out, model.fit(dataset, all, *loss, params));
                         out.predictions = model.predict(dataset, all);
                         out.features    = model.features();
                     }
@@ -408,6 +427,14 @@ int main(int argc, char** argv)
                             err = std::max(err, std::fabs(base.predictions(i) - other.predictions(i)) / (1.0 + std::fabs(base.predictions(i))));
                         }
                         same = same && err <= 1e-5;
+                        // the stored per-(trial, fold) statistics and the sequence of trials must not depend on the pools either
+                        same = same && base.trials == other.trials && base.stats.size() == other.stats.size();
+                        for (size_t i = 0; same && i < base.stats.size(); ++i)
+                        {
+                            const auto e = std::fabs(base.stats[i] - other.stats[i]) / (1.0 + std::fabs(base.stats[i]));
+                            err          = std::max(err, e);
+                            same         = e <= 1e-5;
+                        }
                     }
                     if (!same)
                     {
